@@ -330,7 +330,8 @@ def gen_e2e_case(rng, root):
             sub = rng.choice(["in", "in/d.v1"])
             p = os.path.join(root, sub, name)
             os.makedirs(os.path.dirname(p), exist_ok=True)
-            open(p, "w").close()
+            with open(p, "w") as fh:      # distinct contents: file hashes are content based
+                fh.write(p)
             val = p
         elif kind == "str":
             val = rng.choice(E2E_STRS)
@@ -477,8 +478,15 @@ Definition value_ok (c : case_t) : bool :=
   end.
 Definition spec_ok (c : case_t) : bool := inside_ok c && value_ok c.
 (* end-to-end cases: oin = oout = the value of outputs.out after running the task in job directory cd *)
+(* the output type coercion (MultiOutputFile = File | list[File]) turns a list of identical paths into one File *)
+Definition collapse (r : res resolved) : res resolved :=
+  match r with
+  | Ok (RMany (p :: l)) => if forallb (la_eqb p) l then Ok (ROne p) else r
+  | _ => r
+  end.
 Definition e2e_ok (c : case_t) : bool :=
-  let '(o, g, vals, cd, oin, oout) := c in res_eqb (output_value o g vals cd) oout.
+  let '(o, g, vals, cd, oin, oout) := c in
+  res_eqb (output_value o g vals cd) oout || res_eqb (collapse (output_value o g vals cd)) oout.
 Definition e2e_inside (c : case_t) : bool :=
   let '(o, g, vals, cd, oin, oout) := c in match g with GTrue => obs_inside cd oout | _ => true end.
 (* input class of finding F26 (the excluded class of C26_inside) *)
@@ -491,7 +499,7 @@ def run(ctx):
     import shutil
     import tempfile
     rng = ctx.rng
-    n = ctx.budget(900, 8000)
+    n = min(ctx.budget(900, 8000), 16000)      # the widened search (x10) is capped: ~25 min of coqc at most
     cases, meta = [], []
     dist = {"kinds": {}, "templates_tuple": 0, "multi": 0, "keep": 0, "given_true": 0, "given_false": 0,
             "given_explicit": 0, "obs_path": 0, "obs_list": 0, "obs_none": 0, "obs_error": {}, "refs": {},
@@ -560,14 +568,16 @@ def run(ctx):
     dist["outside_modelled_format_fragment"] = len(outside_model)
 
     # ---- end to end: run real tasks (executable `touch`) and compare outputs.out with the model
-    ne = ctx.budget(6, 60)
+    ne = min(ctx.budget(6, 60), 120)
     root = tempfile.mkdtemp(prefix="verif-c26-", dir="/tmp")
     e_cases, e_meta = [], []
     try:
-        for _ in range(ne):
+        for k in range(ne):
             case = gen_e2e_case(rng, root)
             try:
-                actual, cd, obs = observe_e2e(case, os.path.join(root, "cache"))
+                # a fresh cache root per run: the task checksum ignores path_template / keep_extension (C06), so a
+                # shared root would serve the outputs of an earlier, differently templated task
+                actual, cd, obs = observe_e2e(case, os.path.join(root, "cache%d" % k))
             except Exception as e:  # noqa
                 dist["e2e_errored"] += 1
                 dist.setdefault("e2e_error_examples", [])
@@ -606,7 +616,7 @@ def run(ctx):
                                         expected="a path strictly inside " + m["case"]["cache_dir"],
                                         note="resolved path is not inside the job directory (outside the F26 class)", kind="spec"))
     for kind, name in (("spec", "value"), ("tie", "tie")):
-        for i in res[name][:20]:
+        for i in res[name][:4]:
             m = meta[i]
             exp = explain(ctx, m["case"], "x%s%d" % (name, i))
             out.failures.append(Failure(case=m["case"], observed={"job_inputs": m["obs_in"], "outputs": m["obs_out"]},
